@@ -6,7 +6,7 @@ import cgw
 import fullstack
 from framework import PropertyCheck
 
-KINDS = ["error", "rstack", "silent", "lost", "eof"]
+KINDS = ["error", "rstack", "silent", "naksilent", "lost", "eof"]
 WORKLOADS = ["idle", "inflight", "queued", "reset"]
 BOUND = 10 + 5 * 3.2 + 0.5          # command timeout + sum of link timeouts (+ slack for scheduling)
 
@@ -34,6 +34,20 @@ def run_full(workload, kind, position, when="before", ncp_v=8, close_instead=Fal
             s.line.flush()
         elif kind == "silent":
             s.line.cut = True
+        elif kind == "naksilent":
+            # the NCP answers the next DATA frame with a NAK (it arrived damaged) and is never heard of again
+            import ashref
+            done = []
+
+            def h2n(data):
+                b0 = bytes(data).lstrip(b"\x1a")[:1]
+                if not done and b0 and b0[0] < 0x80:
+                    done.append(1)
+                    s.loop.call_soon(s.line._deliver, ashref.wire(("NAK", 0, 0, (b0[0] >> 4) & 7)))
+                    s.loop.call_soon(setattr, s.line, "cut", True)
+                    return None
+                return data
+            s.line.fault_h2n = h2n
         elif kind == "lost":
             s.loop.call_soon(s.ash.connection_lost, ConnectionError("scripted loss"))
         elif kind == "eof":
@@ -106,7 +120,7 @@ def run_full(workload, kind, position, when="before", ncp_v=8, close_instead=Fal
             return
         if st["injected_at"] is None:
             inject()                                                   # workload finished first: fail now
-        if kind == "silent" and not close_instead:
+        if kind in ("silent", "naksilent") and not close_instead:
             # a silent NCP shows only when something is sent to it
             tasks.append(s.spawn(cmd("probe", lambda: s.ez.nop())))
             try:
@@ -152,7 +166,7 @@ def judge_full(case, out):
     if ti is None:
         return None
     r = out["res"].get("r")
-    if not out["reset_requests"] and kind == "silent" and r is not None and r[0].startswith("raise") and r[1] - ti <= 5 + 0.5:
+    if not out["reset_requests"] and kind in ("silent", "naksilent") and r is not None and r[0].startswith("raise") and r[1] - ti <= 5 + 0.5:
         # an NCP that falls silent while a reset handshake is in progress: there is no DATA traffic to go
         # unacknowledged; the failure is reported to the caller of the reset, which raises within the reset
         # timeout, and EZSP stays stopped (see DESIGN.md, C10 reading)
@@ -182,7 +196,7 @@ class Check(PropertyCheck):
     shard = 400
     rule = ("(a) gateway-level histories (failure codes, losses, EOF, deliberate close, commands, resets; upward calls singly and back to "
             "back) compared with the Coq model; (b) full stack in virtual time: workloads {idle, command in flight, commands queued, reset in "
-            "progress} x failure kinds {ERROR, unsolicited RSTACK, silent NCP, connection_lost, EOF} injected before and after every wire "
+            "progress} x failure kinds {ERROR, unsolicited RSTACK, silent NCP, NCP that NAKs once and then falls silent, connection_lost, EOF} injected before and after every wire "
             "event, plus deliberate close, plus the same failures after an earlier failure that hit before the application registered, judged by the property predicate; non-trivial = a failure is injected; distinct by scenario")
     assumptions = ["threaded mode (use_thread=True) is outside this check (C20)",
                    "simulated NCP and line (harness/fullstack.py)"]
